@@ -73,7 +73,7 @@ func destForms(v Variant, rng *rand.Rand, catalogue bool) string {
 func perturbsFor(v Variant) (quote []string, direct []string) {
 	switch v.Entry {
 	case "icmp":
-		return []string{"qdst", "qsrc", "id", "seqHi", "bump", "foreign"}, []string{"id", "seqHi", "bump"}
+		return []string{"qdst", "qsrc", "id", "seqHi", "bump", "foreign", "qtype"}, []string{"id", "seqHi", "bump"}
 	case "udp":
 		q := []string{"qdst", "qdport", "ipidHi", "bump", "foreign"}
 		if v.V6 {
